@@ -18,6 +18,7 @@ type Env struct {
 	lookup func(name string) (Val, bool)
 	lookupAddr func(name string) (Val, bool) // address of an alloc-backed source variable
 	entry      map[string]Val                // parameter values at function entry (what old(x) means for a parameter x)
+	header     func(name string) (Val, bool) // value of a loop variable at the loop header (prev(x) at a back edge)
 	isOld      bool
 	cur    *State
 	old    *State
@@ -818,6 +819,17 @@ func (e *Env) evalCall(t *ast.CallExpr) Val {
 				return v
 			}
 			return c.makeInterface(v, v.T, types.NewInterfaceType(nil, nil))
+		case "prev":
+			// prev(x): at a loop's back edge, the value x had at the loop header of this iteration
+			id2, ok := t.Args[0].(*ast.Ident)
+			if !ok || e.header == nil {
+				panic(specErr("prev(x) is only available at loop ends"))
+			}
+			v, ok := e.header(id2.Name)
+			if !ok {
+				panic(specErr("prev: unknown loop variable %s", id2.Name))
+			}
+			return v
 		case "objof":
 			v := e.eval(t.Args[0])
 			if _, ok := v.T.Underlying().(*types.Interface); ok {
